@@ -488,6 +488,12 @@ class Ctx:
             "known_findings_reproduced": [k["id"] for k in known_hit],
         })
         cov.update(self.notes.get("coverage_extra", {}))
+        if "exhaustive" in cov and not isinstance(cov["exhaustive"], bool):
+            cov["exhaustive_scope"] = cov["exhaustive"]
+            cov["exhaustive"] = bool(cov["exhaustive"])
+        for k in ("states", "transitions", "programs", "disagreements_checked", "evaluations"):
+            if k in cov and not isinstance(cov[k], int):
+                cov[k + "_detail"] = cov.pop(k)
         if not cov["samples"]:
             cov["samples"] = [{"note": "no correspondence cases in this run"}]
         ev = {"property_id": self.prop, "tier": self.tier, "seed": self.seed, "level": level,
